@@ -497,6 +497,9 @@ impl Simulation {
                 Ok(Some(t)) if t == target_time => return Ok(()),
                 // No actions are scheduled before or at the target time.
                 Ok(None) => {
+                    #[cfg(asynchronix_verif)]
+                    crate::verif_hooks::pause_point("step_until:queue_found_idle");
+
                     // Update the simulation time.
                     self.time.write(target_time);
                     self.clock.synchronize(target_time);
